@@ -218,11 +218,49 @@ func c20CleanRules(k *eng.Check, cl *dsClosure, allowDirtyFlag bool) {
 		}
 	}
 	if wsIdx < 0 {
-		k.Unknown("ws-clean-before-edit", name, "the working-set key (tested with am.Has on the closure's map)", "not identified")
+		if !c20CleanViaHelper(k, cl, allowDirtyFlag) {
+			k.Unknown("ws-clean-before-edit", name, "the working-set key (tested with am.Has on the closure's map, or handed to a verifier helper together with the map)", "not identified")
+		}
 		return
 	}
 	wsKey, headKey := cl.Edits[wsIdx].Key, cl.Edits[1-wsIdx].Key
-	wsGets, headGets := cl.getsOf(wsKey), cl.getsOf(headKey)
+	headGets := cl.getsOf(headKey)
+	headRoot := func(v ssa.Value) bool {
+		return eng.Slice(v, true, func(x ssa.Value) bool {
+			c := dsCallTo(x, "store/datas.GetCommitRootHash")
+			if c == nil || len(c.Call.Args) < 1 {
+				return false
+			}
+			return eng.Slice(c.Call.Args[0], true, c20InCalls(headGets))
+		})
+	}
+	targets := eng.NewSet()
+	for _, e := range cl.Edits {
+		targets.AddI(e.Call)
+	}
+	c20CleanCore(k, cl, name, wsKey, hasCalls, headRoot, targets, 2, allowDirtyFlag)
+}
+
+func c20InCalls(set []*ssa.Call) func(ssa.Value) bool {
+	return func(v ssa.Value) bool {
+		c, ok := v.(*ssa.Call)
+		if !ok {
+			return false
+		}
+		for _, x := range set {
+			if x == c {
+				return true
+			}
+		}
+		return false
+	}
+}
+
+// c20CleanCore: inside cl.Fn (the edit closure, or a verifier helper that receives the closure's map), the targets
+// (the edits, or the helper's success exits) are reached only past staged==working and staged==head-root comparisons
+// on values read from that map with error-checked Gets.
+func c20CleanCore(k *eng.Check, cl *dsClosure, name string, wsKey ssa.Value, hasCalls []*ssa.Call, headRoot func(ssa.Value) bool, targets *eng.Set, minT int, allowDirtyFlag bool) {
+	wsGets := cl.getsOf(wsKey)
 	inCalls := func(set []*ssa.Call) func(ssa.Value) bool {
 		return func(v ssa.Value) bool {
 			c, ok := v.(*ssa.Call)
@@ -251,15 +289,6 @@ func c20CleanRules(k *eng.Check, cl *dsClosure, allowDirtyFlag bool) {
 		}
 	}
 	staged, working := accessor("StagedRootAddrBytes"), accessor("WorkingRootAddrBytes")
-	headRoot := func(v ssa.Value) bool {
-		return eng.Slice(v, true, func(x ssa.Value) bool {
-			c := dsCallTo(x, "store/datas.GetCommitRootHash")
-			if c == nil || len(c.Call.Args) < 1 {
-				return false
-			}
-			return eng.Slice(c.Call.Args[0], true, inCalls(headGets))
-		})
-	}
 	onlyStaged := func(v ssa.Value) bool { return staged(v) && !working(v) && !headRoot(v) }
 	onlyWorking := func(v ssa.Value) bool { return working(v) && !staged(v) }
 	onlyHeadRoot := func(v ssa.Value) bool { return headRoot(v) && !staged(v) && !working(v) }
@@ -285,12 +314,12 @@ func c20CleanRules(k *eng.Check, cl *dsClosure, allowDirtyFlag bool) {
 		}
 		return false
 	}, false))
-	if skip.Len() < 2 {
-		k.Unknown("ws-clean-before-edit", name+"#skip", "the `no working set named` and `no working set present` branches", fmt.Sprintf("found %d edge(s), confirmed floor 2", skip.Len()))
+	skipFloor := 2
+	if minT == 1 {
+		skipFloor = 1 // inside a verifier helper the `no working set named` branch stays with the caller
 	}
-	targets := eng.NewSet()
-	for _, e := range cl.Edits {
-		targets.AddI(e.Call)
+	if skip.Len() < skipFloor {
+		k.Unknown("ws-clean-before-edit", name+"#skip", "the `no working set named` and `no working set present` branches", fmt.Sprintf("found %d edge(s), confirmed floor %d", skip.Len(), skipFloor))
 	}
 	dirtyOK := eng.NewSet()
 	if allowDirtyFlag {
@@ -313,8 +342,8 @@ func c20CleanRules(k *eng.Check, cl *dsClosure, allowDirtyFlag bool) {
 			k.Unknown("ws-clean-before-edit", name+"#allow-dirty", "the branch on the captured allow-dirty flag", "not found")
 		}
 	}
-	k.OnlyAfter("ws-clean-before-edit", cl.Fn, "edits only past staged==working of the working set stored in the closure's map (or no working set / allow-dirty)", targets, 2, eng.UnionOf(eqSW, skip, dirtyOK))
-	k.OnlyAfter("ws-clean-before-edit", cl.Fn, "edits only past staged==root of the head stored in the closure's map (or no working set)", targets, 2, eng.UnionOf(eqSH, skip))
+	k.OnlyAfter("ws-clean-before-edit", cl.Fn, "edits only past staged==working of the working set stored in the closure's map (or no working set / allow-dirty)", targets, minT, eng.UnionOf(eqSW, skip, dirtyOK))
+	k.OnlyAfter("ws-clean-before-edit", cl.Fn, "edits only past staged==root of the head stored in the closure's map (or no working set)", targets, minT, eng.UnionOf(eqSH, skip))
 	if eqSW.Len() < 1 || eqSH.Len() < 1 {
 		k.Unknown("ws-clean-before-edit", name+"#comparisons", "staged-vs-working and staged-vs-head-root comparisons on values read from the closure's map", fmt.Sprintf("found %d/%d, confirmed 1/1", eqSW.Len(), eqSH.Len()))
 	}
@@ -323,7 +352,7 @@ func c20CleanRules(k *eng.Check, cl *dsClosure, allowDirtyFlag bool) {
 	for _, g := range wsGets {
 		okGets.Union(eng.OkCut(g))
 	}
-	k.OnlyAfter("ws-clean-before-edit", cl.Fn, "edits only past an error-checked Get of the working-set key (or no working set)", targets, 2, eng.UnionOf(okGets, skip))
+	k.OnlyAfter("ws-clean-before-edit", cl.Fn, "edits only past an error-checked Get of the working-set key (or no working set)", targets, minT, eng.UnionOf(okGets, skip))
 }
 
 // (5) doSetHead: preconditions run inside the closure
@@ -759,4 +788,82 @@ func c20TableNames() []string {
 	}
 	sort.Strings(names)
 	return names
+}
+
+// c20CleanViaHelper: the cleanliness verification was extracted into a same-package helper that receives the closure's
+// map, the working-set key and the head address read from the same map.  The core rules are applied inside the helper
+// (its success exits are the guarded points); the closure must reach its edits only after the helper returned nil (or on
+// the edge where no working-set key was given), and the helper's arguments must be exactly those three roles.
+func c20CleanViaHelper(k *eng.Check, cl *dsClosure, allowDirtyFlag bool) bool {
+	name := eng.Name(cl.Fn)
+	for _, ci := range eng.Calls(cl.Fn, func(q ssa.CallInstruction) bool {
+		h := q.Common().StaticCallee()
+		return h != nil && len(h.Blocks) > 0 && eng.FuncPkg(h) == eng.FuncPkg(cl.Fn) && len(eng.Calls(h, eng.Static(dsFnAmHas), false)) > 0
+	}, false) {
+		call, ok := ci.(*ssa.Call)
+		if !ok {
+			continue
+		}
+		h := call.Call.StaticCallee()
+		var amP, keyP, headP *ssa.Parameter
+		wsIdx := -1
+		for i, a := range call.Call.Args {
+			if i >= len(h.Params) {
+				break
+			}
+			switch {
+			case cl.isAm(a):
+				amP = h.Params[i]
+			case eng.ShortType(a.Type()) == "string":
+				for j, e := range cl.Edits {
+					if dsSameVal(a, e.Key, 6) {
+						keyP, wsIdx = h.Params[i], j
+					}
+				}
+			case eng.ShortType(a.Type()) == "store/hash.Hash":
+				headP = h.Params[i]
+			}
+		}
+		if amP == nil || keyP == nil || headP == nil || len(cl.Edits) != 2 {
+			continue
+		}
+		k.FuncsSeen[h] = true
+		// the head address handed to the helper is the one stored under the other key of the same map
+		headKey := cl.Edits[1-wsIdx].Key
+		headGets := cl.getsOf(headKey)
+		headArgOK := false
+		for i, a := range call.Call.Args {
+			if i < len(h.Params) && h.Params[i] == headP {
+				headArgOK = eng.Slice(a, true, c20InCalls(headGets))
+			}
+		}
+		k.Require("ws-clean-before-edit", name+"#verifier-head", "the head the verifier compares with is the address stored under the head key of the closure's map", headArgOK, k.C.InstrPos(call), "the verifier is given another head address")
+		// the closure edits only after the verifier returned nil, or when no working-set key was given
+		targets := eng.NewSet()
+		for _, e := range cl.Edits {
+			targets.AddI(e.Call)
+		}
+		skip := dsCmpEdges(cl.Fn, func(v ssa.Value) bool { return dsSameVal(v, cl.Edits[wsIdx].Key, 6) }, func(v ssa.Value) bool { return dsIsConstVal(v, constant.MakeString("")) }, true)
+		k.OnlyAfter("ws-clean-before-edit", cl.Fn, "edits only after the cleanliness verifier "+eng.Name(h)+" returned nil (or no working-set key given)", targets, 2, eng.UnionOf(eng.OkCut(call), skip))
+		// inside the helper
+		hcl := &dsClosure{Site: cl.Site, Host: cl.Host, Outer: cl.Outer, Fn: h, Am: amP}
+		var hasCalls []*ssa.Call
+		for _, hc := range eng.Calls(h, eng.Static(dsFnAmHas), false) {
+			if c, isC := hc.(*ssa.Call); isC && len(c.Call.Args) >= 3 && hcl.isAm(c.Call.Args[0]) && dsSameVal(c.Call.Args[2], keyP, 6) {
+				hasCalls = append(hasCalls, c)
+			}
+		}
+		headRoot := func(v ssa.Value) bool {
+			return eng.Slice(v, true, func(x ssa.Value) bool {
+				c := dsCallTo(x, "store/datas.GetCommitRootHash")
+				if c == nil || len(c.Call.Args) < 1 {
+					return false
+				}
+				return eng.Slice(c.Call.Args[0], true, func(y ssa.Value) bool { return y == ssa.Value(headP) })
+			})
+		}
+		c20CleanCore(k, hcl, eng.Name(h), keyP, hasCalls, headRoot, eng.SuccessExits(h), 1, allowDirtyFlag)
+		return true
+	}
+	return false
 }
